@@ -243,6 +243,10 @@ def oracle(case, rec):
         mode = int(rng.integers(0, 3))
         for j, i in enumerate(outside):
             Y2[i] = fresh + j if mode == 0 else int(rng.integers(0, fresh + 2)) if mode == 1 else fresh
+        if c and Y2 == Xl:
+            # the alteration must not turn the pair into a self pair (element-wise identical -> correction is switched off)
+            for j, i in enumerate(outside):
+                Y2[i] = fresh + j
         inside = sorted(rows)
         Y3 = list(Yl)
         pick = inside[int(rng.integers(0, len(inside)))]
